@@ -7,6 +7,13 @@ NOTES = ("Model-based verification with explicit TLA+ specifications (spec/*.tla
 
 CHECKS = [
     {
+        "property_id": "C03",
+        "design_ref": "DESIGN.md §4 C03",
+        "technique": "TLA+ models Dates.tla / DateRange.tla / Eop.tla checked exhaustively by TLC (exact integer tick arithmetic over IERS tables read independently); every reachable state/behaviour replayed on real Date, DateRange, EopDb",
+        "text": "Dates.tla: state = one TAI instant + scale label; actions change_scale / + timedelta; TLC proves on the model that relabelling keeps the instant, arithmetic is exact in uniform scales, the clock reading is well defined, and exports for every reachable state the exact instant and clock reading (0.1 us ticks) which the real Date must reproduce (exact scales to 1 ns and ==; UT1/TDB within the conversion resolution), plus order/eq/hash consistency across labels; every day of the IERS tables is checked for UT1-UTC/TAI-UTC in the thorough tier (400 sampled days quick). DateRange.tla: all (start, stop, step, inclusive) on a grid, iteration/len/membership. Eop.tla: registry + missing-policy machine, all action histories replayed on the real EopDb, plus the real tables on an uncovered date.",
+        "level_note": "Bounded: start days = both sides of leap seconds (2 quick / all thorough) + seeded days, 17 seconds-of-day incl. carry boundaries, <=2 actions. TDB-TT value not decided (bound + instant preservation only). Instants within 3 min of a leap second and, for UT1/TDB, within 200 s of a day boundary are outside the quantifier. Trusted: TLC, lib/eopgen.py (independent table reader), float->tick projection.",
+    },
+    {
         "property_id": "C20",
         "design_ref": "DESIGN.md §4 C20",
         "technique": "TLA+ model (Routing.tla, Registry.tla) + TLC exhaustive enumeration of link/creation histories, replayed on real Node/frames; trace validation of projected real states against the contract (RoutingTrace.tla)",
@@ -17,5 +24,5 @@ CHECKS = [
 
 _PENDING = "check not built yet in this session (design in DESIGN.md §4); will be claimed once its TLA+ model and conformance harness exist"
 NOT_APPLICABLE = [
-    {"property_id": f"C{i:02d}", "reason": _PENDING} for i in range(1, 20)
+    {"property_id": f"C{i:02d}", "reason": _PENDING} for i in range(1, 20) if i not in (3,)
 ]
